@@ -284,6 +284,29 @@ def rule_SH(run: Run) -> RuleResult:
                         extra = (e.line, f"{e.op} of {t_.key()[:70] if t_ is not None else '?'} (line {e.line})")
         res.add(f"{hq_}:evaluates nothing but its switch", extra is None, fi_.module.relpath, extra[0] if extra else fi_.node.lineno,
                 "the only evaluation in the handler is that of its switch option" if extra is None else "also performs " + extra[1], nec)
+    # the default handler of the type check of an option value is a side request too: it evaluates nothing at all — except, if it has
+    # one, a switch of the library's own (an Option with a literal LABREA.* key; new switches are R-HK's business).  A handler that
+    # evaluates what it was handed (a configurable type) makes every Option depend on keys that Option.keys()/explain() never report
+    for hq_ in astu.default_handler_registrations(repo).get("TypeValidationRequest", []):
+        try:
+            fi_, ps_ = _paths_fn(run, hq_)
+        except AnalysisError:
+            continue
+        extra = None
+        for p in ps_:
+            for e in p.events:
+                if e.kind in ("unfold", "op") and e.op in ("evaluate", "validate", "keys", "explain") and (e.depth == 0 or not e.via):
+                    t_ = e.target
+                    key_ = t_.attrs.get("key") if isinstance(t_, New) and t_.cls.name == "Option" else None
+                    if isinstance(key_, Const) and isinstance(key_.v, str) and key_.v.startswith("LABREA."):
+                        continue
+                    if extra is None:
+                        extra = (e.line, f"{e.op} of {t_.key()[:70] if t_ is not None else '?'} (line {e.line})")
+                elif e.kind == "call" and e.text in ("evaluate", "validate", "keys", "explain") and e.target is not None and e.depth == 0 and extra is None:
+                    # ... or of something it was handed (request.type.evaluate(request.options))
+                    extra = (e.line, f"{e.text} of {e.target.key()[:70]} (line {e.line})")
+        res.add(f"{hq_}:evaluates nothing but its switch", extra is None, fi_.module.relpath, extra[0] if extra else fi_.node.lineno,
+                "the handler evaluates nothing (beyond a switch of the library's own)" if extra is None else "also performs " + extra[1], nec)
     ld = repo.func("labrea.logging.disabled")
     lps = analyse_function(Ctx(repo), ld.module, ld.node)
     from . import rules_runtime as RTN
@@ -1124,6 +1147,42 @@ def _lock_attrs(repo, c) -> Set[str]:
     return out
 
 
+_UNPICKLABLE = {"types.MappingProxyType": "a read-only mapping view", "MappingProxyType": "a read-only mapping view",
+                "weakref.ref": "a weak reference", "weakref.proxy": "a weak reference", "weakref.WeakKeyDictionary": "a weak dictionary",
+                "weakref.WeakValueDictionary": "a weak dictionary", "weakref.WeakSet": "a weak set", "weakref.WeakMethod": "a weak reference",
+                "threading.local": "thread-local storage", "open": "an open file", "iter": "a one-shot iterator", "builtins.iter": "a one-shot iterator",
+                "itertools.chain": "a one-shot iterator", "itertools.count": "an iterator", "itertools.cycle": "an iterator (not picklable from 3.14 on)",
+                "builtins.map": "a one-shot iterator", "builtins.filter": "a one-shot iterator", "builtins.zip": "a one-shot iterator"}
+
+
+def _unpicklable_value(repo, module, v, _depth: int = 0) -> str:
+    """Why pickle refuses (one of the values of) the expression, '' when nothing is known against it.  Looks through `a or b`,
+    conditional expressions and module-level names bound once to such a value."""
+    if _depth > 4:
+        return ""
+    if isinstance(v, ast.BoolOp):
+        for x in v.values:
+            w = _unpicklable_value(repo, module, x, _depth + 1)
+            if w:
+                return w
+        return ""
+    if isinstance(v, ast.IfExp):
+        return _unpicklable_value(repo, module, v.body, _depth + 1) or _unpicklable_value(repo, module, v.orelse, _depth + 1)
+    if isinstance(v, ast.GeneratorExp):
+        return "a generator"
+    if isinstance(v, ast.Call):
+        r = repo.resolve_expr(module, v.func)
+        nm = r[1] if r and r[0] == "external" else (ast.unparse(v.func) if r is None and isinstance(v.func, (ast.Name, ast.Attribute)) else "")
+        if isinstance(v.func, ast.Name) and v.func.id in ("open", "iter") and r is None:
+            nm = v.func.id
+        return _UNPICKLABLE.get(nm, "") if isinstance(nm, str) else ""
+    if isinstance(v, ast.Name):
+        r = repo.resolve_name(module, v.id)
+        if r and r[0] == "var" and isinstance(r[1], ast.expr):
+            return _unpicklable_value(repo, r[2], r[1], _depth + 1)
+    return ""
+
+
 def rule_PL(run: Run) -> RuleResult:
     res = RuleResult("R-PL")
     repo = run.repo
@@ -1178,6 +1237,31 @@ def rule_PL(run: Run) -> RuleResult:
             res.add(f"{c.qualname}:__getstate__ and __setstate__ come in pairs", ok, c.module.relpath, c.node.lineno, "", nec)
     if n < 1:
         raise AnalysisError("no class with a lock attribute found (Overloaded expected)")
+    # ... and nothing else that pickle refuses is kept on an object of the graph: a read-only mapping view, a weak reference, a generator,
+    # an iterator, thread-local storage, an open file (a class that defines its own __getstate__ / __reduce__ decides for itself)
+    n_st = 0
+    for c in repo.classes.values():
+        if c.module.name.startswith("labrea.mypy") or any(k in kc.methods for kc in c.mro() for k in ("__getstate__", "__reduce__", "__reduce_ex__")):
+            continue
+        for mn, fn in c.methods.items():
+            sn = astu.first_param(fn) or "self"
+            for st in ast.walk(fn):
+                if not isinstance(st, (ast.Assign, ast.AnnAssign)) or getattr(st, "value", None) is None:
+                    continue
+                for t in (st.targets if isinstance(st, ast.Assign) else [st.target]):
+                    if not (isinstance(t, ast.Attribute) and isinstance(t.value, ast.Name) and t.value.id == sn):
+                        continue
+                    n_st += 1
+                    why = _unpicklable_value(repo, c.module, st.value)
+                    if why:
+                        res.add(f"{c.qualname}.{mn}:self.{t.attr} holds nothing pickle refuses", False, c.module.relpath, st.lineno,
+                                f"self.{t.attr} = {ast.unparse(st.value)[:60]}: {why}; pickling (and deep-copying) any graph that contains such an object fails", nec)
+    res.add("labrea:no object of the graph keeps a value pickle refuses (mapping views, weak references, generators, iterators, thread-locals, files)",
+            True, "labrea/types.py", 1, f"{n_st} attribute stores inspected", nec, trivial=True)
+    if n_st < 60:
+        raise AnalysisError(f"R-PL: only {n_st} attribute stores found")
+    if not _unpicklable_value(repo, next(iter(repo.modules.values())), ast.parse("types.MappingProxyType({}) if x else y", mode="eval").body):
+        raise AnalysisError("R-PL: the detector no longer sees its positive example")
     # node classes rely on default instance pickling: no __slots__, no __reduce__ surprises
     for c in run.node_classes():
         bad = [a for a in ("__slots__",) if a in c.class_assigns]
